@@ -117,7 +117,12 @@ impl Poller {
     { unimplemented!() }
     #[verifier::external_body]
 	async fn look_up_previous_header(&mut self, header: &ValidatedBlockHeader) -> (r: BlockSourceResult<ValidatedBlockHeader>)
-        ensures r is Ok ==> r->Ok_0.block_hash == header.inner.header.prev_blockhash && wf(r->Ok_0)
+        ensures r is Ok ==> r->Ok_0.block_hash == header.inner.header.prev_blockhash && wf(r->Ok_0) && builds_on(*header, r->Ok_0)   // builds_on: proved for ChainPoller below
+    { unimplemented!() }
+    // Poll::check_builds_on (finding F13): the contract proved for ChainPoller::check_builds_on below
+    #[verifier::external_body]
+	fn check_builds_on(&self, header: &ValidatedBlockHeader, previous_header: &ValidatedBlockHeader) -> (r: BlockSourceResult<()>)
+        ensures r is Ok ==> builds_on(*header, *previous_header)
     { unimplemented!() }
 }
 pub struct ChainNotifier<'a> { pub header_cache: &'a mut HeaderCache }
@@ -165,6 +170,12 @@ impl<'a> ChainNotifier<'a> {
 //@ret r
 //@ensures A previous-header-is-the-parent-and-well-formed
     r is Ok ==> r->Ok_0.block_hash == header.inner.header.prev_blockhash && wf(r->Ok_0)
+//@ensures P C20 the-header-a-walk-steps-back-from-was-checked-to-build-on-the-header-it-steps-to-whether-that-one-came-from-the-cache-or-from-the-source
+    r is Ok ==> builds_on(*header, r->Ok_0),
+//@mutant cached_parent_handed_back_without_checking_that_the_header_builds_on_it
+    chain_poller.check_builds_on(header, prev_header)?;
+//@with
+    
 //@end
 
     #[verifier::exec_allows_no_decreases_clause]
@@ -183,6 +194,7 @@ impl<'a> ChainNotifier<'a> {
     r is Ok ==> ({ let d = r->Ok_0;
         &&& is_ancestor(d.common_ancestor.block_hash, current_header.block_hash)
         &&& is_ancestor(d.common_ancestor.block_hash, prev_header.block_hash)
+        &&& wf(d.common_ancestor)
         &&& linked(d.connected_blocks@, current_header.block_hash, d.common_ancestor.block_hash) })
 //@at before_loop 1
     proof { assert(nth_parent(current_header.block_hash, 0) == current_header.block_hash); assert(nth_parent(prev_header.block_hash, 0) == prev_header.block_hash); }
@@ -488,6 +500,14 @@ impl ChainPoller {
     header.check_builds_on(&previous_header, self.network)?;
 //@with
     
+//@end
+// Poll::check_builds_on as ChainPoller implements it (a method the repair of finding F13 added: absent from a tree without the repair, where nothing can call it)
+//@extract? lightning-block-sync/src/poll.rs :: impl Poll for ChainPoller :: fn check_builds_on
+//@ret r
+//@requires
+    previous_header.inner.height < u32::MAX,
+//@ensures P C20 the-pollers-check-that-a-header-builds-on-an-already-known-parent-is-the-check-made-on-a-fetched-parent
+    r is Ok ==> builds_on(*header, *previous_header) && header.inner.chainwork.0 == (previous_header.inner.chainwork.0 + work_of(header.inner.header).0) % 0x1_0000_0000_0000_0000,
 //@end
 // the height the parent is asked for at (BlockSource::get_header may rely on the hint to find the header): one below the header's own
 //@extract lightning-block-sync/src/poll.rs :: impl Poll for ChainPoller :: fn look_up_previous_header
